@@ -4,7 +4,7 @@
 ID = "C13"
 HARNESSES = [dict(name="configmgr", pkg="./pkg/configmgr/", test="TestVerifC13", timeout=900,
                   files=[("pkg/configmgr/zz_verif_c13_test.go", "harness/C13/zz_verif_c13_test.go")])]
-VARIANTS = ["repaired", "set_defect", "persist_defect", "defective"]
+VARIANTS = ["repaired", "frr_defect"]      # frr_defect = /repo HEAD until fixes/C13_frr_restore.patch is applied
 MODEL_NEEDS_IMPL = True     # only the concurrent cases use it (linearizability search in the driver)
 RULE = ("One case = one history against a fresh ConfigManager: a registry of 2-7 recording handlers on real path "
         "patterns (scalar leaves of interfaces/vrfs/protocols/aaa, _internal no-op paths, a literal pattern shadowing "
@@ -94,7 +94,7 @@ def plugin_value(rng, pat):
     if pat.endswith(".enabled"):
         return "b1"
     return rng.choice([hx("edited"), hx("x"), hx("orig"), hx("second")])
-FAULTS = ["0:-"] * 10 + ["1:-", "2:-", "3:-", "4:-", "0:t", "0:r", "0:s", "0:v", "0:s", "0:v", "2:t", "0:tr", "0:sv",
+FAULTS = ["0:R", "0:R", "0:rq1", "2:q1", "3:q2", "0:tq1", "0:sq2", "0:Rq2", "0:Rs"] + ["0:-"] * 10 + ["1:-", "2:-", "3:-", "4:-", "0:t", "0:r", "0:s", "0:v", "0:s", "0:v", "2:t", "0:tr", "0:sv",
                          "0:rs", "3:s", "0:tv"]
 
 
@@ -259,17 +259,28 @@ def boundary_cases():
                        "c", "t 15", "s 3 interfaces.eth1.mtu i1 0", "c"])
     # guard: pre-commit validation
     for v in ["i1511", "i1512", "i0", "i67048", "i65636"]:
-        out.append(reg3 + ["guard", "eth1", "1500", "ops", "c", "s 1 interfaces.eth2.mtu i9000 0", "m 1 0:-",
+        out.append(reg3 + recipe_tokens(("guard", "eth1", 1500)) + ["ops", "c", "s 1 interfaces.eth2.mtu i9000 0", "m 1 0:-",
                            "s 1 interfaces.eth1.mtu %s 0" % v, "m 1 0:-", "c"])
     # plugin namespace in the running configuration: a candidate edit / discard / failed commit must not show
     regp = ["reg", "3", "verif.c13.message", "A", "2", "-", "0", "verif.c13.limit", "A", "2", "-", "0",
             "interfaces.<*>.mtu", "I", "1,2", "-", "0"]
     for mode in ("typed", "prod"):
-        out.append(regp + ["plugin", mode, hx("orig"), "5", "ops", "c", "s @ verif.c13.message %s 0" % hx("edited"),
+        out.append(regp + recipe_tokens(("plugin", mode, hx("orig"), 5)) + ["ops", "c", "s @ verif.c13.message %s 0" % hx("edited"),
                            "x @", "c", "s @ verif.c13.limit i7 0", "m @ 1:-", "m @ 0:-", "c",
                            "s @ verif.c13.message %s 0" % hx("again"), "s @ interfaces.eth1.mtu i1500 0", "m @ 0:-"])
     # without the namespace in cfg.Plugins the same Set is "field not found"
     out.append(regp + ["ops", "c", "s @ verif.c13.message %s 0" % hx("edited"), "m @ 0:-"])
+    # deep: hidden (json:"-") flags, an autoconfig-derived subinterface, an MSS clamp spec and subscriber groups
+    # in running; commit an unrelated leaf: flags survive in running/startup, the file is scrubbed; with
+    # colliding groups (deep 1) every commit fails in ValidateMatchIndex (conf.go:280) with nothing changed
+    for col in (False, True):
+        out.append(reg3 + recipe_tokens(("deep", col)) + ["ops", "c", "s @ interfaces.eth1.mtu i9000 0", "m @ 0:-", "c",
+                   "s @ interfaces.eth2.description %s 0" % hx("x"), "s @ protocols.ospf.enabled b1 0", "m @ 2:-",
+                   "m @ 0:s", "m @ 0:-", "c"])
+    # the routing daemon: reload fails cleanly / after the daemon took the candidate; a Rollback call fails
+    for f in ["0:r", "0:R", "0:Rq1", "0:rq2", "3:q1", "0:tq2", "0:sq1"]:
+        out.append(reg3 + ["ops"] + base + ["m 1 " + f, "m 1 0:-", "c", "s 2 interfaces.eth1.mtu i1400 0", "m 2 0:-",
+                                           "c", "s 3 protocols.ospf.router-id %s 0" % hx("2.2.2.2"), "m 3 " + f])
     return [" ".join(c) for c in out]
 
 
@@ -329,11 +340,13 @@ def gen_cases(rng, tier, budget):
         toks = mk_reg(rng, pats, deps, frr)
         guard = None
         if plug:
-            toks += ["plugin", rng.choice(["typed", "typed", "prod"]), hx(rng.choice(["orig", "hello", ""])),
-                     str(rng.choice([0, 5, 64]))]
+            toks += recipe_tokens(("plugin", rng.choice(["typed", "typed", "prod"]), hx(rng.choice(["orig", "hello", ""])),
+                                   rng.choice([0, 5, 64])))
         elif "interfaces.<*>.mtu" in pats and rng.random() < 0.25:
             guard = ("eth1", rng.choice([1500, 1600, 9000]))
-            toks += ["guard", guard[0], str(guard[1])]
+            toks += recipe_tokens(("guard", guard[0], guard[1]))
+        elif rng.random() < 0.12:
+            toks += recipe_tokens(("deep", rng.random() < 0.3))
         nops = rng.randint(4, 24)
         toks += ["ops"] + rand_ops(rng, pats, deps, nops, guard)
         cases.append(" ".join(toks))
@@ -346,12 +359,10 @@ def split_case(case):
     n = int(t[1])
     p = 2 + 5 * n
     head = t[:p]
-    if t[p] == "guard":
-        head = t[:p + 3]
-        p += 3
-    if t[p] == "plugin":
-        head = t[:p + 4]
-        p += 4
+    for name, k in (("guard", 3), ("deep", 2), ("plugin", 4), ("init", 2)):
+        if t[p] == name:
+            p += k
+            head = t[:p]
     p += 1  # "ops"
     ops = []
     ar = {"c": 1, "x": 2, "d": 2, "s": 5, "t": 2, "b": 2, "m": 3}
@@ -375,24 +386,54 @@ def parse_step(s):
     res, tr = f[0], f[1] if len(f) > 1 else "-"
     delta = {}
     for x in f[2:]:
-        if "=" in x and x[0] in "RSFCLVWN" and x[1] == "=":
+        if "=" in x and x[0] in "RSFCLVWND" and x[1] == "=":
             delta[x[0]] = x[2:]
     return res, ([] if tr == "-" else tr.split(",")), delta
 
 
+def init_entries(recipe):
+    """projection of the initial running configuration the harness builds for a recipe"""
+    if recipe[0] == "guard":
+        g = "subscriber-groups.groups.g1"
+        return ["subscriber-groups/", "subscriber-groups.groups/", g + "/", g + ".pppoe/", g + ".pppoe.mru=i%d" % recipe[2],
+                g + ".vlans.0/", g + ".vlans.0.access-types.0=" + hx("pppoe"), g + ".vlans.0.cvlan=" + hx("any"),
+                g + ".vlans.0.parent-interface=" + hx(recipe[1]), g + ".vlans.0.svlan=" + hx("100")]
+    if recipe[0] == "deep":
+        i, sg = "interfaces.eth1", "subscriber-groups.groups"
+        return ["interfaces/", i + "/", i + ".enabled=b1", i + ".name=" + hx("eth1"), i + ".~lcp=b1", i + ".subinterfaces/",
+                i + ".subinterfaces.100/", i + ".subinterfaces.100.enabled=b1", i + ".subinterfaces.100.id=i100",
+                i + ".subinterfaces.100.vlan=i100", i + ".subinterfaces.100.~lcp=b1",
+                i + ".subinterfaces.100.~subscriberaccess=b1", i + ".subinterfaces.100.~mssclamp/",
+                i + ".subinterfaces.100.~mssclamp.~enabled=b1", i + ".subinterfaces.100.~mssclamp.~ipv4mss=i1400",
+                i + ".subinterfaces.100.~mssclamp.~ipv6mss=i1380", i + ".subinterfaces.200/",
+                i + ".subinterfaces.200.description=" + hx("op"), i + ".subinterfaces.200.id=i200",
+                i + ".subinterfaces.200.vlan=i200", i + ".subinterfaces.200.~lcp=b1",
+                "subscriber-groups/", sg + "/", sg + ".a/", sg + ".a.vlans.0/", sg + ".a.vlans.0.svlan=" + hx("100"),
+                sg + ".a.vlans.0.cvlan=" + hx("any"), sg + ".b/", sg + ".b.vlans.0/",
+                sg + ".b.vlans.0.svlan=" + hx("100" if recipe[1] else "101"), sg + ".b.vlans.0.cvlan=" + hx("any")]
+    if recipe[0] == "plugin":
+        es = ["interfaces/", "interfaces.eth0/", "interfaces.eth0.name=" + hx("eth0"),
+              "interfaces.eth0.description=" + hx("Management Interface"), "interfaces.eth0.enabled=b1", "verif.c13/"]
+        if recipe[2] != "s-":
+            es.append("verif.c13.message=" + recipe[2])
+        if recipe[3]:
+            es.append("verif.c13.limit=i%d" % recipe[3])
+        return es
+    return []
+
+
+def recipe_tokens(recipe):
+    if recipe is None:
+        return []
+    t = {"guard": lambda r: ["guard", r[1], str(r[2])], "deep": lambda r: ["deep", "1" if r[1] else "0"],
+         "plugin": lambda r: ["plugin", r[1], r[2], str(r[3])]}[recipe[0]](recipe)
+    return t + ["init", ",".join(sorted(init_entries(recipe)))]
+
+
 def initial_R(head):
-    """projection of the initial running configuration of a 'plugin' case (what LoadStartupConfig produces)"""
-    if "plugin" not in head:
-        return "-"
-    k = head.index("plugin")
-    msg, lim = head[k + 2], int(head[k + 3])
-    es = ["interfaces/", "interfaces.eth0/", "interfaces.eth0.name=" + hx("eth0"),
-          "interfaces.eth0.description=" + hx("Management Interface"), "interfaces.eth0.enabled=b1", "verif.c13/"]
-    if msg != "s-":
-        es.append("verif.c13.message=" + msg)
-    if lim:
-        es.append("verif.c13.limit=i%d" % lim)
-    return ",".join(sorted(es))
+    if "init" in head:
+        return head[head.index("init") + 1]
+    return "-"
 
 
 def known_signatures():
@@ -437,12 +478,15 @@ def monitor(case, line, tolerate=None):
         else:
             flags = o[2].split(":")[1]
             okap = [x[2:] for x in tr if x.startswith("A:")]
-            rb = [x[2:] for x in tr if x.startswith("R:")]
+            rb = [x[2:] for x in tr if x.startswith("R:") or x.startswith("R!")]     # every Rollback call, failed or not
             if res == "startupsave" and "s" in flags and "commit-error-after-swap:startup-save" in tol and "F" not in d and "W" not in d:
                 aliased = True
             elif res == "versionsave" and "v" in flags and "commit-error-after-swap:version-save" in tol and "W" not in d:
                 pass
             elif res != "ok":
+                if d.get("D") == "other" and "reload-failure-no-frr-restore" not in tol:
+                    return ("step %d (%s): commit returned %s but the routing daemon now runs a configuration that is "
+                            "neither what it had nor the running one" % (i, " ".join(o), res))
                 if persisted or "V" in d:
                     return "step %d (%s): commit returned %s but %s changed" % (i, " ".join(o), res, persisted or ["V"])
                 if rb != okap[::-1]:
@@ -515,6 +559,8 @@ def signature(case, impl, models):
         res, tr, d = parse_step(steps(impl)[i])
     except Exception:
         return "unclassified"
+    if o[0] == "m" and res == "frrreload" and ("r" in o[2].split(":")[1] or "R" in o[2].split(":")[1]):
+        return "reload-failure-no-frr-restore"
     if o[0] == "s" and res == "setfail" and "C" in d:
         return "failed-set-leaves-containers"
     if o[0] == "m":
@@ -552,7 +598,9 @@ def shrink(case):
             yield join_case(head, ops[:i] + [[o[0], o[1], "0:-"]] + ops[i + 1:])
     if "guard" in head:
         g = head.index("guard")
-        yield join_case(head[:g], ops)
+        yield join_case(head[:g], ops)      # guard + its init
+    if "deep" in head and "init" in head:
+        yield join_case(head[:head.index("deep")], ops)
     # drop dependency lists
     n = int(head[1])
     for i in range(n):
